@@ -273,6 +273,36 @@ class C06(Prop):
                 self.check(ctx, case)
                 done += 1
         ctx.count('class:variable-reached-through-one-node-class', done)
+        # aliasing of variable lists: a named term `sa = T(x)` is one operand of a binary arithmetic node whose other
+        # operand mentions y, and is used again in a predicate of its own; in the configuration in which x is
+        # insensitive and y sensitive that second predicate must be overridden (it mentions x only)
+        N, V, C = lang.N, lang.V, lang.C
+        al = 0
+        for o in ('add', 'sub', 'mul', 'div', 'pow', 'log'):
+            for pos in (0, 1):
+                for side in ('input', 'output'):
+                    term = N('add', N('abs', V('x')), C(1.0))
+                    other = N('add', N('abs', V('y')), C(2.0)) if o in ('div', 'log') else (N('div', V('y'), C(4.0)) if o == 'pow' else V('y'))
+                    ops2 = (V('sa'), other) if pos == 0 else (other, V('sa'))
+                    if o in ('pow', 'log') and pos == 1:
+                        ops2 = (N('add', N('abs', V('y')), C(1.0)), N('div', V('sa'), C(4.0)) if o == 'pow' else N('add', V('sa'), C(1.0)))
+                    p1 = N('geq', N(o, *ops2), C(1.0))
+                    p2 = N(rng.choice(['geq', 'leq']), V('sa'), C(2.0))
+                    top = N(rng.choice(['and', 'or']), p1, p2)
+                    kind = rng.choice(KINDS[:4])
+                    io = {'x': 'output' if side == 'input' else 'input', 'y': side}
+                    case = {'formula': lang.inline(top, [('sa', term)]), 'kind': kind,
+                            'sem': rng.choice([side + '_robustness', side + '_vacuity']), 'io': io,
+                            'modular': {'top': lang.to_jsonable(top), 'defs': [['sa', lang.to_jsonable(term)]], 'consts': [],
+                                        'style': rng.choice(['one-text', 'subspecs'])}}
+                    if kind.startswith('dt'):
+                        case['data'] = lang.gen_trace(rng, ['x', 'y'], rng.randint(2, 8))
+                    else:
+                        base = lang.gen_signal(rng, n=rng.randint(2, 6), start=Fr(0))
+                        case['signals'] = sig_text(dict((k, [(t, rng.choice(lang.SMALL)) for (t, _) in base]) for k in ('x', 'y')))
+                    self.check(ctx, case)
+                    al += 1
+        ctx.count('class:named-term-next-to-another-variable', al)
 
     def run_real(self, kind, text, names, sem, io, data=None, sig=None, modular=None, cuts=None):
         sd = {'text': text, 'vars': names, 'semantics': sem, 'io': io}
